@@ -37,7 +37,7 @@ def main(argv):
     if "--only-refac" not in argv:
         jobs += [("seeded", d.rstrip("/")) for d in sorted(glob.glob(os.path.join(HERE, "seeded", "*", "")))]
     if "--only-seeded" not in argv:
-        jobs += [("refac", d.rstrip("/")) for d in sorted(glob.glob(os.path.join(HERE, "selftest", "refactorings", "*", "")))]
+        jobs += [("refac", d.rstrip("/")) for d in sorted(glob.glob(os.path.join(HERE, "selftest", "refactorings*", "*", "")))]
     t0 = time.time()
     with ProcessPoolExecutor(max_workers=16) as ex:
         results = list(ex.map(job, jobs))
